@@ -92,6 +92,7 @@ pub fn case(cx: &mut Case) -> CaseResult {
     cx.src = src;
     let typed = type_check(&prog, true).map_err(|e| harness_error(format!("generated IR rejected: {:?}; {}", e, prog.render())))?;
     let mut vb = ValBuilder::new();
+    vb.constructors_only = true; // witness values by plain constructors: the value decoders are not this check's subject (C10) and must not make the harness inconsistent
     let mut s = cx.src.clone();
     let wit = gen_witnesses(&prog, &typed, &mut s, &mut vb);
     cx.src = s;
